@@ -29,6 +29,26 @@ macro_rules! chk {
         }
     };
 }
+/// An input that hands out bytes only through `read` and either knows its remaining length or answers
+/// "unknown" (`Ok(None)`), as readers over sockets or files do.
+pub struct Stream<'a> {
+    pub data: &'a [u8],
+    pub pos: usize,
+    pub known: bool,
+}
+impl<'a> codec::Input for Stream<'a> {
+    fn remaining_len(&mut self) -> Result<Option<usize>, codec::Error> {
+        Ok(if self.known { Some(self.data.len() - self.pos) } else { None })
+    }
+    fn read(&mut self, into: &mut [u8]) -> Result<(), codec::Error> {
+        if self.data.len() - self.pos < into.len() {
+            return Err("not enough data".into());
+        }
+        into.copy_from_slice(&self.data[self.pos..self.pos + into.len()]);
+        self.pos += into.len();
+        Ok(())
+    }
+}
 macro_rules! define_check {
     () => {
             fn check<F, const N: usize>(raw: u128) -> (u64, Vec<(&'static str, String)>, u64)
@@ -71,6 +91,45 @@ macro_rules! define_check {
                     let mut input: &[u8] = &le[..k];
                     let dec = F::decode(&mut input);
                     chk!(n, fails, "decode-short-input-fails", dec.is_err(), "decode of the first {} of {} bytes = {:?}", k, nb, dec.as_ref().map(|y| y.raw()));
+                }
+                // 2b. the same through inputs that answer differently: length unknown (remaining_len = None),
+                //     length known, each delivering the bytes through read() only; io reader; decode_all
+                for known in [false, true] {
+                    let mut st = $crate::Stream { data: &with_tail, pos: 0, known };
+                    let dec = F::decode(&mut st);
+                    chk!(n, fails, "decode-from-stream", dec.as_ref().ok() == Some(&x) && st.pos == nb, "decode from a streaming input (remaining_len known: {}) with 3 trailing bytes = {:?}, consumed {} bytes", known, dec.as_ref().map(|y| y.raw()), st.pos);
+                    for k in 0..nb {
+                        let mut st = $crate::Stream { data: &le[..k], pos: 0, known };
+                        let dec = F::decode(&mut st);
+                        chk!(n, fails, "decode-short-stream-fails", dec.is_err(), "decode of the first {} of {} bytes from a streaming input (remaining_len known: {}) = {:?}", k, nb, known, dec.as_ref().map(|y| y.raw()));
+                    }
+                }
+                {
+                    use codec::DecodeAll;
+                    let dec = F::decode_all(&mut &le[..]);
+                    chk!(n, fails, "decode-all", dec.as_ref().ok() == Some(&x), "decode_all(le bytes) = {:?}", dec.as_ref().map(|y| y.raw()));
+                    // inside containers: the element encoding is the same width/8 bytes
+                    let pair = (x, 0x5au8, x);
+                    let penc = pair.encode();
+                    let mut expect = le.clone();
+                    expect.push(0x5a);
+                    expect.extend_from_slice(&le);
+                    chk!(n, fails, "tuple-encoding", penc == expect, "(x, 0x5a, x).encode() = {:02x?}", penc);
+                    let mut st = $crate::Stream { data: &penc, pos: 0, known: false };
+                    let dec = <(F, u8, F)>::decode(&mut st);
+                    chk!(n, fails, "tuple-decode-from-stream", dec.as_ref().ok() == Some(&pair), "decode of (x, 0x5a, x) from a streaming input = {:?}", dec.as_ref().map(|y| (y.0.raw(), y.1, y.2.raw())));
+                    let v = vec![x, x, x];
+                    let venc = v.encode();
+                    let mut expect = vec![3u8 << 2];
+                    for _ in 0..3 {
+                        expect.extend_from_slice(&le);
+                    }
+                    chk!(n, fails, "vec-encoding", venc == expect, "vec![x; 3].encode() = {:02x?}", venc);
+                    let dec = Vec::<F>::decode(&mut &venc[..]);
+                    chk!(n, fails, "vec-decode", dec.as_ref().ok() == Some(&v), "decode of vec![x; 3] = {:?}", dec.as_ref().map(|y| y.iter().map(|e| e.raw()).collect::<Vec<_>>()));
+                    let mut st = $crate::Stream { data: &venc, pos: 0, known: false };
+                    let dec = Vec::<F>::decode(&mut st);
+                    chk!(n, fails, "vec-decode-from-stream", dec.as_ref().ok() == Some(&v), "decode of vec![x; 3] from a streaming input = {:?}", dec.as_ref().map(|y| y.iter().map(|e| e.raw()).collect::<Vec<_>>()));
                 }
                 // 3. byte views
                 let (tl, tb, tn) = (x.to_le_bytes(), x.to_be_bytes(), x.to_ne_bytes());
